@@ -403,6 +403,16 @@ add('C02','hunt3-rule-with-a-brace-accepted',SG,"	if strings.IndexByte(seg.rule,
 add('C03','hunt3-endpoint-by-the-last-byte',SG,"		seg.Endpoint = seg.Suffix == \"\" // 参数之后没有其它内容，/{id}/a} 最后的 } 只是普通字符。\n		seg.matcher = func(string) bool { return true }","		seg.Endpoint = val[len(val)-1] == endByte\n		seg.matcher = func(string) bool { return true }",'violation:C03.R19')
 add('C03','hunt3-benign-endpoint-by-length',SG,"		seg.Endpoint = seg.Suffix == \"\" // 参数之后没有其它内容，/{id}/a} 最后的 } 只是普通字符。\n		seg.matcher = func(string) bool { return true }","		seg.Endpoint = len(seg.Suffix) == 0\n		seg.matcher = func(string) bool { return true }",'silent')
 
+# ---------------- the split-point automaton (section 33)
+addm('C02','auto-prev-after-the-switch',[(SG,"		prev := state // s1[:i] == s2[:i]，两者在 i 之前的状态是相同的。\n",""),(SG,"		if s1[i] != s2[i] {\n","		if s1[i] != s2[i] {\n			prev := state\n")],'violation:C02.R21')
+add('C17','auto-closing-brace-by-start-index',SG,"			if state == startByte { // 不在参数中的 } 只是普通字符，比如 /path}","			if startIndex >= 0 {",'violation:C17.R15')
+add('C03','auto-every-closing-brace-ends-a-parameter',SG,"			if state == startByte { // 不在参数中的 } 只是普通字符，比如 /path}\n				endIndex = i\n			}","			endIndex = i",'violation:C03.R21')
+add('C02','auto-inner-brace-restarts-the-parameter',SG,"			if state != startByte { // 参数中的 { 不是参数的起始位置，比如 {id:\\d{2}}\n				startIndex = i\n			}","			startIndex = i",'violation:C02.R21')
+add('C02','auto-state-before-the-byte-forgotten',SG,"			if prev != endByte || // s2 还处于命名参数之中，比如 {id} 与 {idx}\n				state != endByte ||","			_ = prev\n			if state != endByte ||",'violation:C02.R21')
+add('C05','auto-no-literal-needed-behind-a-parameter',SG,"				state != endByte || // 不从命名参数中间分隔\n				endIndex+1 == i { // 命名参数之后必须要有一个或以上的普通字符","				state != endByte { // 不从命名参数中间分隔",'violation:C05.R20')
+add('C02','auto-benign-in-parameter-flag',SG,"			if state == startByte { // 不在参数中的 } 只是普通字符，比如 /path}","			if inParam := state == startByte; inParam {",'silent')
+add('C02','auto-benign-exit-test-first',SG,"	if endIndex == l-1 {\n		return startIndex\n	}\n\n	return l","	if endIndex != l-1 {\n		return l\n	}\n	return startIndex",'silent')
+
 for pid,entries in C.items():
     os.makedirs(os.path.join(base,pid),exist_ok=True)
     json.dump(entries,open(os.path.join(base,pid,'entries.json'),'w'),indent=1,ensure_ascii=False)
